@@ -373,7 +373,7 @@ func baseFacts(src interface{}, b *ovsdb.BaseType) string {
 	}
 	if e, ok := m["enum"]; ok {
 		var want []interface{}
-		if a, ok := e.([]interface{}); ok {
+		if a, ok := e.([]interface{}); ok && len(a) == 2 && a[0] == "set" {
 			want = a[1].([]interface{})
 		} else {
 			want = []interface{}{e}
